@@ -136,6 +136,12 @@ def oracle_C14(col):
             col.stats['not_judged_failed_call_in_history'] += 1
             return
         hist = list(pre.hist) + [op]
+        if impl.serialise(build(T, hist).el)[0] != 'ok':
+            # the original refuses to serialise; the copy is a rebuild and may legitimately succeed where removal
+            # left matcher flags behind (C11's subject): only serialisable originals are judged
+            col.stats['not_judged_original_refuses'] += 1
+            return
+        hist = list(pre.hist) + [op]
         key = [st.names(), opj(op)]
 
         def make():
@@ -195,8 +201,9 @@ def work_attr(names):
 
 def run(tier):
     run_ = core.Run('C14', tier)
+    r1 = explore.r1_prepare()
     guards = []
-    specs = [explore.Spec(T, 'norem', BFS_BUDGET[tier], 'C14') for T in impl.TYPES]
+    specs = [explore.Spec(T, 'full', BFS_BUDGET[tier], 'C14') for T in impl.TYPES]
     res = explore.run_bfs(specs, structcheck.FACTORIES)
     tot = collections.Counter()
     ost = collections.Counter()
@@ -223,8 +230,8 @@ def run(tier):
            'per_type': per_type,
            'samples': [{'type': 'pitch', 'history': [['A', 'step'], ['A', 'octave']], 'then': 'deepcopy, mutate copy'},
                        {'class': 'words', 'recipe': 'kw-removed', 'xsd_check': True, 'nested': False}],
-           'exhaustive': True,
-           'rule': 'every state of the add/forward/replace BFS (removal histories are C11\'s subject) (budget %d/type) x deepcopy x single mutations on either side; '
+           'exhaustive': True, 'r1_check': r1,
+           'rule': 'every serialisable state of the full-operation BFS without failed calls (budget %d/type) x deepcopy x single mutations on either side; '
                    '7 attribute recipes x 2 check flags x nested/standalone per class' % BFS_BUDGET[tier]}
     return run_.finish(cov, guard_errors=guards)
 
